@@ -18,6 +18,9 @@ pub struct Spec {
     table: String,
     /// latency (ms) of discovery, filter, strategy
     lat: [u64; 3],
+    /// the transport accepts only the first `n` bytes of the first Keep Alive and blocks until `t` ms
+    #[serde(default)]
+    ka_stall: Option<(usize, u64)>,
 }
 
 fn t(id: &str, addr: &str) -> TargetSpec {
@@ -165,6 +168,10 @@ fn build(s: &Spec) -> Case {
     case.adapters.disc_ms = s.lat[0];
     case.adapters.filter_ms = s.lat[1];
     case.adapters.strat_ms = s.lat[2];
+    if let Some((n, until)) = s.ka_stall {
+        // clientbound frames: 0 session cookie request, 1 encryption request, 2 login success, 3 first keep-alive
+        case.transport.writes.push(WriteDev { frame: 3, prog: vec![WStep::Accept(n), WStep::Until(until)] });
+    }
     case.horizon_ms = 120_000;
     case
 }
@@ -293,8 +300,17 @@ fn specs(thorough: bool) -> Vec<Spec> {
         for f in filters {
             for st in strats {
                 for lat in &lats {
-                    v.push(Spec { disc: d.into(), filter: f.into(), strat: st.into(), locale: "de_de".into(), table: "en+de+de_at".into(), lat: *lat });
+                    v.push(Spec { disc: d.into(), filter: f.into(), strat: st.into(), locale: "de_de".into(), table: "en+de+de_at".into(), lat: *lat, ka_stall: None });
                 }
+            }
+        }
+    }
+    // the Keep Alive of the 16 s tick is only partially accepted by the transport while a routing stage answers
+    for (lat, stalls) in [([17_000u64, 0, 0], vec![(1usize, 20_000u64), (4, 20_000), (9, 18_000)]), ([0, 17_000, 0], vec![(3, 20_000)]), ([0, 0, 17_000], vec![(3, 20_000)]), ([17_000, 0, 17_000], vec![(2, 20_000)])] {
+        for stall in stalls {
+            for (d, f, st) in [("v4+v6", "identity", "pick-1"), ("v4", "identity", "none"), ("three", "reverse", "pick-2")] {
+                // (no failing stage here: a connection that is aborted while a frame is stuck in the transport necessarily leaves it torn)
+                v.push(Spec { disc: d.into(), filter: f.into(), strat: st.into(), locale: "de_de".into(), table: "en+de+de_at".into(), lat, ka_stall: Some(stall) });
             }
         }
     }
@@ -304,7 +320,7 @@ fn specs(thorough: bool) -> Vec<Spec> {
     for l in locales {
         for tb in tables {
             for (d, st) in [("v4", "none"), ("empty", "pick-0")] {
-                v.push(Spec { disc: d.into(), filter: "identity".into(), strat: st.into(), locale: l.into(), table: tb.into(), lat: [0, 0, 0] });
+                v.push(Spec { disc: d.into(), filter: "identity".into(), strat: st.into(), locale: l.into(), table: tb.into(), lat: [0, 0, 0], ka_stall: None });
             }
         }
     }
@@ -364,8 +380,8 @@ pub fn run(cli: Cli) -> ! {
     rep.set("exhaustive", json!(true));
     rep.set("rule", json!("full product discovery(8) x filter(7) x strategy(6) x adapter latencies, plus client locale(19) x localisation table(9) on both no-target paths; distinct_nontrivial = distinct (clientbound trace without keep-alives, result)"));
     rep.sample(json!({"spec": all[0]}));
-    rep.sample(json!({"spec": Spec { disc: "v4+v6".into(), filter: "reverse".into(), strat: "pick-0".into(), locale: "de_de".into(), table: "en+de+de_at".into(), lat: [0, 0, 0] }, "expect": "Transfer to 2001:db8::1 port 65535"}));
-    rep.sample(json!({"spec": Spec { disc: "v4".into(), filter: "identity".into(), strat: "none".into(), locale: "de_AT".into(), table: "en+de+de_at".into(), lat: [0, 0, 0] }, "expect": "Disconnect with the 'de' message (de_AT -> de)"}));
+    rep.sample(json!({"spec": Spec { disc: "v4+v6".into(), filter: "reverse".into(), strat: "pick-0".into(), locale: "de_de".into(), table: "en+de+de_at".into(), lat: [0, 0, 0], ka_stall: None }, "expect": "Transfer to 2001:db8::1 port 65535"}));
+    rep.sample(json!({"spec": Spec { disc: "v4".into(), filter: "identity".into(), strat: "none".into(), locale: "de_AT".into(), table: "en+de+de_at".into(), lat: [0, 0, 0], ka_stall: None }, "expect": "Disconnect with the 'de' message (de_AT -> de)"}));
     rep.assume("locale keys are compared as exact strings (the statement does not define case folding); when no table exists for the whole chain only 'exactly one Disconnect, no Transfer' is judged");
     rep.assume("Transfer host is compared as an IP address, not as text");
     rep.finish()
